@@ -738,4 +738,13 @@ example : (run demoState demoOps).reg.length = 2 ∧ (run demoState demoOps).tsu
 theorem fact_C06_bank_calls_go_through_the_wrapper :
     Generated.bankBaseKeeperBypassSites = ["x/evm/keeper:Keeper.SetAccBalance"] := by decide
 
+/-- no FunToken flow builds a second StateDB in the middle of an execution: the only callers of the publishing constructor
+    `Keeper.NewStateDB` are the five state-machine entry points. A precompile method that built its own (seed C06-15: `balance()`)
+    would re-point `Keeper.Bank.StateDB`: the bank moves of the rest of the transaction would be mirrored into a throw-away StateDB
+    and the real one would write stale balances back at `Commit` — the atomicity the model's operations assume. -/
+theorem fact_C06_only_entry_points_publish_a_statedb :
+    Generated.publishingConstructorCallers =
+      ["x/evm/keeper:Keeper.EthereumTx", "x/evm/keeper:Keeper.convertCoinToEvmBornCoin", "x/evm/keeper:Keeper.convertCoinToEvmBornERC20",
+       "x/evm/keeper:Keeper.createFunTokenFromERC20", "x/evm/keeper:Keeper.deployERC20ForBankCoin"] := by decide +kernel
+
 end Nibiru.FunToken
